@@ -1192,6 +1192,16 @@ impl<R: std::io::BufRead> FlacStreamReader<R> {
             // either gotten the first half of the frame sync,
             // or have reached EOF
 
+            // the first half of the sync is consumed by now, so an interrupted
+            // read has to be retried here: starting over would lose the frame
+            loop {
+                match self.reader.fill_buf() {
+                    Err(e) if e.kind() == std::io::ErrorKind::Interrupted => continue,
+                    Err(e) => return Err(e.into()),
+                    Ok(_) => break,
+                }
+            }
+
             // check that the next byte is the other half of a frame sync
             match self.reader.fill_buf() {
                 Ok([]) => {
@@ -1208,8 +1218,15 @@ impl<R: std::io::BufRead> FlacStreamReader<R> {
                         std::slice::from_ref(&0b11111111).chain(self.reader.by_ref()),
                     );
 
-                    if let Ok(header) = FrameHeader::read_subset(&mut crc_reader) {
-                        break (header, crc_reader);
+                    match FrameHeader::read_subset(&mut crc_reader) {
+                        Ok(header) => break (header, crc_reader),
+                        // a failing source is not a malformed header:
+                        // report it instead of silently skipping the frame
+                        Err(Error::Io(e)) if e.kind() != std::io::ErrorKind::UnexpectedEof => {
+                            return Err(Error::Io(e));
+                        }
+                        // not a frame header after all, so keep looking
+                        Err(_) => {}
                     }
                 }
                 Ok(_) => continue,
